@@ -23,6 +23,7 @@ type Clause struct {
 	at    string // for kind "at": label name, or "call:NAME#K"
 	callPos token.Pos
 	callExtra []string
+	assumeAt bool // `at call NAME#K assume E`: a stated assumption (reported), not an obligation
 	pos   token.Position
 	// filled by the type-checking step
 	expr ast.Expr
@@ -45,6 +46,7 @@ type Contract struct {
 	hints    []*Clause
 	split    bool // one postcondition obligation per return site
 	noexec   string // reason why the contract is not executed against the real function
+	frameAssumed string // the `modifies` clause is assumed, not proved (reason); everything else is verified
 	prepare  []string
 	frameWithout []string
 }
@@ -161,6 +163,11 @@ func parseContracts(pkg *packages.Package) ([]*Contract, error) {
 					// Go statement(s) run on generated inputs before the contract is executed
 					// (steers the bounded input generator into the precondition; not part of the proof)
 					cur.prepare = append(cur.prepare, rest)
+				case "frame-assumed":
+					cur.frameAssumed = rest
+					if cur.frameAssumed == "" {
+						cur.frameAssumed = "frame not proved"
+					}
 				case "noexec":
 					cur.noexec = rest
 					if cur.noexec == "" {
@@ -184,8 +191,15 @@ func parseContracts(pkg *packages.Package) ([]*Contract, error) {
 					if len(fs) == 3 && fs[0] == "call" {
 						// at call NAME#K assert EXPR
 						gs := strings.SplitN(fs[2], " ", 2)
-						if len(gs) != 2 || gs[0] != "assert" {
-							return nil, fmt.Errorf("%s: at call NAME#K assert EXPR", pos)
+						if len(gs) != 2 || (gs[0] != "assert" && gs[0] != "assume") {
+							return nil, fmt.Errorf("%s: at call NAME#K assert|assume EXPR", pos)
+						}
+						if gs[0] == "assume" {
+							cl := &Clause{kind: "at", text: gs[1], at: "call:" + fs[1], pos: pos, assumeAt: true}
+							cl.setLabel(cl.text)
+							cur.clauses = append(cur.clauses, cl)
+							last = cl
+							continue
 						}
 						fs = []string{"call:" + fs[1], "assert", gs[1]}
 					}
